@@ -148,7 +148,6 @@ def community_louvain(W, gamma=1, ci=None, B='modularity', seed=None):
 
     if B == 'modularity':
         B = W - gamma * np.outer(np.sum(W, axis=1), np.sum(W, axis=0)) / s
-        B = (B + B.T) / 2
     elif B == 'potts':
         B = W - gamma * np.logical_not(W)
     elif B == 'negative_sym':
@@ -168,7 +167,8 @@ def community_louvain(W, gamma=1, ci=None, B='modularity', seed=None):
             print ('Warning: objective function matrix not symmetric, '
                    'symmetrizing')
             B = (B + B.T) / 2
-    
+
+    B = (B + B.T) / 2  # gains and aggregation below assume a symmetric B
     Hnm = np.zeros((n, n))
     for m in range(1, n + 1):
         Hnm[:, m - 1] = np.sum(B[:, ci == m], axis=1)  # node to module degree
